@@ -44,6 +44,11 @@ Sensitivity (scratch copies, quick tier, seed 1):
     (matching_token_rejected; edge part + exploration arm "blank earlier carrier + token in a later carrier", label
     blank_earlier_carrier_valid_later_accept ~240/run).  Missed before: two-carrier cases never had a blank first one.
     The real tree accepts these requests (the statement only asks that the request *carries* a matching token).
+  * web.py _execute: the gate "method not in (GET, HEAD, OPTIONS)" rewritten as "method in (POST, PUT, PATCH, DELETE)":
+    application-defined methods (PROPFIND/PURGE/REPORT through SUPPORTED_METHODS) reach the handler without a
+    token -> caught at seeds 1,2,3 (accepted_without_matching_token; edge part: 7 gated methods x 3 cookies x
+    {no token, foreign, malformed, hex junk, empty, mutated, issued, re-masked} x 4 carriers, and the exploration's
+    method factor).  Missed before: the handler only implemented the standard methods.
 The "edge" part runs every malformed string (~47: over-long version prefixes and timestamps, odd/non-hex masks,
 non-ASCII digits, versions 0 / -1 / +2 / 2_0, wrong field counts ...) as cookie and as token through body, query,
 multipart and header carriers for both app versions, plus every (blank earlier carrier, later carrier) pair x
